@@ -17,6 +17,10 @@
 (*   url  the URL text held by the (inner) *url.Error: "orig" (the string of   *)
 (*        the URL the request was made with), "junk" (an unparsable text),     *)
 (*        or after the call "redacted".                                        *)
+(*                                                                             *)
+(* Here a call is one atomic step; RedactConc.tla splits it into its steps and  *)
+(* demands "input unchanged" in every intermediate state, with a concurrent     *)
+(* reader of the same URL object.                                               *)
 EXTENDS Integers, Sequences, TLC
 
 CONSTANTS Users,      \* userinfo variants to enumerate (non-nil ones)
